@@ -46,6 +46,9 @@ def cases(tier, seed):
         if i % 8 == 1:      # the checkpoint is reached through `<symlinked directory>/../<name>`
             c["reach"] = True
         cs.append(c)
+    # scale: a checkpoint whose level 0 holds a box of a million cells
+    for k in range(1 if tier == "quick" else 2):
+        cs.append({"gen": dict(seed=seed * 43 + 1717 + k, nspecies=2, nghost=1, aniso=True, scale=True), "sel_seed": seed * 79 + 1717 + k})
     return cs
 
 
@@ -112,6 +115,10 @@ def expect(m, species, gradp, reactions, floor):
 
 
 def run_case(case, work, rec):
+    if case["gen"].get("scale"):
+        rec.count("scale_cases")
+        run_one(case, work, rec, case["gen"], "chk00005", 2)
+        return
     run_one(case, work, rec, case["gen"], "chk00005", 8)
     # a second, different checkpoint converted in the SAME process (another species count, ghost width
     # and level count): nothing may be carried over from the first conversions
